@@ -78,7 +78,9 @@ m2task('CompressedCertificate._decompress/output-bounded', ('C08',), Q, SPEC, ch
        opts={'ground_feasible': True},
        doc='every call inflating peer bytes is bounded by the declared uncompressed length (+1 so that an overlong '
            'stream is detected by the length comparison); zlib.decompress(data, wbits, bufsize) is not such a call')
-REG.note('C08', 'trusted', 'CompressedCertificate._decompress: the brotli/zstd branches are executed against this '
-                           'installation\'s compression_algo_impls table (bindings absent here => branches infeasible); '
-                           'zlib.decompressobj().decompress(data, max_length) returns at most max_length bytes (zlib documentation)')
+REG.note('C08', 'trusted', 'CompressedCertificate._decompress: the brotli/zstd branches are executed against this installation\'s '
+                           'compression_algo_impls table (here: bundled brotli decoder that accepts an output limit, no zstd => that branch '
+                           'is infeasible); that a binding honours the limit it is given is its contract (C08 agent observation: the bundled '
+                           'brotli decoder checks the limit per metablock); zlib.decompressobj().decompress(data, max_length) returns at most '
+                           'max_length bytes (zlib documentation)')
 REG.xchecks.append({'prop': 'C08', 'module': 'specs.decompress', 'name': 'compressed_certificate_zlib_output_bounded', 'function': Q})
